@@ -23,7 +23,12 @@ PROPS["C11"] = {
     "rule": "windows: every family x every length 3..512 (quick 3..96) + log-uniformly sampled lengths to 1e5 (incl. 99999, 100000) x both variants (tukey/kaiser: symmetric only) x "
             "parameter grids gauss alpha {0.5..6}, tukey r {-0.5..1.5 incl. 0, 1, 1e-9, 0.999999}, kaiser beta {0..40} + a random parameter of the range per (family, length); "
             "fir1: every order 2..256 (quick 2..48) + sampled/boundary orders to 2000 x four types x cut-off grid of (0.02,0.98) (49 points thorough) + random cut-offs, band-edge pair grid + random pairs, "
-            "default window and nine custom window kinds (eight families + an asymmetric perturbed Hamming), wrong-length windows {nn-1, nn+1, 0, 1, 2nn, n+1 vs n+2}; "
+            "default window and 17 custom window kinds (eight families, an asymmetric perturbed Hamming, periodic hann, hann with -0 ends, zero-padded and five scaled Hammings), wrong-length windows {nn-1, nn+1, 0, 1, 2nn, n+1 vs n+2}; "
+            "boundary-directed (round 2): tukey r at -0.5, +-0, denormals, DBL_MIN, 1e-300 .. eps/2, eps, 2eps .. 1e-4, 1, 1.5 (each +- ulps), at the taper-length branch points 2k/(n-1) +- ulp and log-uniform over (1e-323,1); "
+            "gauss alpha 0, denormal .. DBL_MAX (exp-underflow and square-overflow thresholds, range ends +- ulp, negative); kaiser beta 0, denormal .. 40 +- ulp, powers of two; "
+            "one log-uniform parameter per (family, length) in the dense sweep; window lengths 2^16, 2^17 +- 1 .. 1000003; fir1 order 1 and orders to 8191 (masks) / 2^16, 2^17, 196608 (no mask), "
+            "cut-offs within an ulp of 0, 0.02, 0.5, 0.98, 1 and at 1e-310 .. 1e-4, band edges one ulp apart / spanning (0,1); custom windows periodic, zero-padded, with -0 end points, "
+            "scaled by 1e-300 .. 1e100 (scale invariance for odd prototype order); window passed as temporary / copy; valid design bit-identical before and after a rejected call; "
             "distinct = distinct (family,n,variant,parameter) / (type,n,cut-offs,window) tuples; non-trivial = all",
     "technique": "Lean 4 proofs over a hand-written generic-scalar model (structural theorems for every scalar type, closed forms / ranges / gains exact over R) "
                  "+ bit-level differential correspondence with the library + long-double oracle (closed forms, converged I0, 8192-point long-double FFT response masks)",
